@@ -1,6 +1,7 @@
 package main
 
 import (
+	"go/token"
 	"fmt"
 	"go/types"
 	"net/textproto"
@@ -147,6 +148,7 @@ func checkC09(w *World, r *Report) {
 	c09FirstInChain(w, r, tp)
 	c09Extraction(w, r, tp)
 	c09Upstream(w, r)
+	c09DefaultsNoSharing(w, r)
 }
 
 func c09ReadList(w *World, r *Report, tp *tpAnchors) {
@@ -593,5 +595,91 @@ func c09Upstream(w *World, r *Report) {
 	}
 	if n == 0 {
 		r.Undecided(ri, "no httputil.ReverseProxy literal found")
+	}
+}
+
+// c09DefaultsNoSharing (C09.7): the configuration defaults are the storage the loader decodes
+// into. A reference value (pointer, map, slice) placed into two services' defaults - directly or
+// by copying a struct local that carries it - makes what is configured for one service (its
+// trusted_proxies list) show up in, or wipe, the other's.
+func c09DefaultsNoSharing(w *World, r *Report) {
+	ri := r.Rule("C09.7", 1, "in the configuration defaults no reference value (pointer, map, slice) is placed into more than one field, and no struct local carrying one is copied more than once: each service's trusted_proxies storage is its own")
+	fn := w.Func("internal/config", "defaultConfig")
+	if fn == nil {
+		r.Undecided(ri, "internal/config.defaultConfig not found")
+		return
+	}
+	r.Analysed(w.FnName(fn))
+	isRef := func(v ssa.Value) bool {
+		switch x := stripConv(v).(type) {
+		case *ssa.Alloc:
+			return x.Heap
+		case *ssa.MakeMap, *ssa.MakeSlice, *ssa.Slice:
+			return true
+		}
+		return false
+	}
+	// 1. each reference value goes to one place
+	placed := map[ssa.Value][]*ssa.Store{}
+	carrier := map[*ssa.Alloc]ssa.Value{} // struct local -> a reference value stored into one of its fields
+	eachInstr(fn, func(in ssa.Instruction) {
+		st, ok := in.(*ssa.Store)
+		if !ok || !isRef(st.Val) {
+			return
+		}
+		if _, isField := st.Addr.(*ssa.FieldAddr); !isField {
+			return
+		}
+		v := stripConv(st.Val)
+		placed[v] = append(placed[v], st)
+		if root, _ := accessPath(st.Addr); root != nil {
+			if a, ok := root.(*ssa.Alloc); ok {
+				if _, isStruct := derefType(a.Type()).Underlying().(*types.Struct); isStruct {
+					carrier[a] = v
+				}
+			}
+		}
+	})
+	n := 0
+	var refVals []ssa.Value
+	for v := range placed {
+		refVals = append(refVals, v)
+	}
+	sort.Slice(refVals, func(i, j int) bool { return placed[refVals[i]][0].Pos() < placed[refVals[j]][0].Pos() })
+	for _, v := range refVals {
+		sts := placed[v]
+		n++
+		r.Ob(ri, fmt.Sprintf("%s|reference-value#%d", w.FnName(fn), n), sts[0].Pos(), len(sts) == 1,
+			fmt.Sprintf("the %s created here is stored into %d fields: the services share one storage", v.Type(), len(sts)))
+	}
+	// 2. a struct local carrying a reference value is copied at most once
+	m := 0
+	var carriers []*ssa.Alloc
+	for a := range carrier {
+		carriers = append(carriers, a)
+	}
+	sort.Slice(carriers, func(i, j int) bool { return carriers[i].Pos() < carriers[j].Pos() })
+	for _, a := range carriers {
+		copies := 0
+		if refs := a.Referrers(); refs != nil {
+			for _, rf := range *refs {
+				if ld, ok := rf.(*ssa.UnOp); ok && ld.Op == token.MUL && ld.Referrers() != nil {
+					for _, u := range *ld.Referrers() {
+						if st, ok := u.(*ssa.Store); ok && st.Val == ssa.Value(ld) {
+							copies++
+						}
+					}
+				}
+			}
+		}
+		if a == nil || copies == 0 {
+			continue
+		}
+		m++
+		r.Ob(ri, fmt.Sprintf("%s|carrier-copied#%d", w.FnName(fn), m), a.Pos(), copies <= 1,
+			fmt.Sprintf("the struct value %s carries a reference value and is copied into %d places: all copies share that storage", a.Comment, copies))
+	}
+	if n == 0 {
+		r.Undecided(ri, "no reference-typed default value found in defaultConfig (anchor lost?)")
 	}
 }
